@@ -14,6 +14,7 @@ import (
 
 	sdk "github.com/cosmos/cosmos-sdk/types"
 	authtypes "github.com/cosmos/cosmos-sdk/x/auth/types"
+	basketapi "github.com/regen-network/regen-ledger/api/v2/regen/ecocredit/basket/v1"
 
 	"verifharness/chain"
 	"verifharness/eng"
@@ -78,9 +79,11 @@ type Gen struct {
 	modules             map[string]bool
 	Panics              int
 	boundaryStartUsed   bool
-	quiet               bool             // suppress per-field hostility (multi-entry messages must have a chance to succeed)
-	related             []string         // role holders on the entities the current generator looked at (see noteRelated)
-	script              []func() *eng.Tx // follow-up steps queued by a scenario generator; drained before random choice
+	boundaryBasket      *basketapi.Basket // the basket the last boundaryStart() aimed at
+	quiet               bool              // suppress per-field hostility (multi-entry messages must have a chance to succeed)
+	windowOnly          bool              // nearBoundaryPut considers moving-window criteria only
+	related             []string          // role holders on the entities the current generator looked at (see noteRelated)
+	script              []func() *eng.Tx  // follow-up steps queued by a scenario generator; drained before random choice
 }
 
 type originRef struct{ ClassID, ID, Source string }
@@ -376,8 +379,10 @@ func (g *Gen) issueAmount() string {
 
 func (g *Gen) metadata() string {
 	switch g.R.Intn(12) {
-	case 0:
-		return strings.Repeat("m", 256)
+	case 0, 4:
+		return strings.Repeat("m", 256) // exactly the maximal length
+	case 5:
+		return strings.Repeat("é", 128) // 256 bytes in 128 characters
 	case 1:
 		if g.hostile() {
 			return strings.Repeat("m", 257)
